@@ -410,6 +410,15 @@ def run_one(payload):
             stg_b = os.path.join(work_b, 'mc_settings.txt')
             out_b = os.path.join(work_b, 'MC_Result.txt')
             cb = dict(c, base=1 - c['base'])
+            # a "#" argument resolves against the second driver's own base input
+            cb['inputs'] = []
+            for i_ in c['inputs']:
+                i2 = dict(i_, args=list(i_['args']))
+                if i2.get('hash_arg') is not None:
+                    bv = _base_value(base_text(cb), i2['name'])
+                    if bv is not None:
+                        i2['args'][i2['hash_arg']] = bv
+                cb['inputs'].append(i2)
             with open(inp_b, 'w') as f:
                 f.write(base_text(cb))
             with open(stg_b, 'w') as f:
